@@ -8,6 +8,7 @@
      TreeR.v    nested product spaces with exponent 2: flattening theorem, inner-product axioms
      LeafR.v    norms / dist of tensor and discretized leaves, every exponent
      TreeNorm.v norms / dist on nested product spaces with mixed exponents
+     OneNorm.v  ||one|| = sqrt(volume) stated on uniform_discr inputs
      TreeDist.v dist = norm(x - y) on the exponent-2-through-inner branch; symmetry of dist
    This file only re-exports them. *)
-From Verif Require Export C02.Roots C02.IPS C02.TensorR C02.Mink C02.ComplexR C02.DiscrR C02.TreeR C02.LeafR C02.TreeNorm C02.TreeDist.
+From Verif Require Export C02.Roots C02.IPS C02.TensorR C02.Mink C02.ComplexR C02.DiscrR C02.TreeR C02.LeafR C02.TreeNorm C02.TreeDist C02.OneNorm.
